@@ -91,12 +91,33 @@ Section NP.
     - destruct d; try np_leaf; apply np_json_number.
   Qed.
 
+  Lemma np_slice_value et x : wf_ty et = true -> np (slice_value rec_map et x).
+  Proof.
+    intro W. unfold slice_value.
+    repeat (match goal with
+            | |- np (Ok _) => apply np_ok
+            | |- np (Err _) => apply np_err
+            | |- np (bind _ _) => apply np_bind; [|intro]
+            | |- np (convert_set _ _ _) => apply np_convert_set
+            | |- np (rec_map _ _) => apply Hm; simpl in W; assumption
+            | |- np (match ?x with _ => _ end) => destruct x
+            end).
+  Qed.
+
+  Lemma np_from_string_slice t et d : wf_ty et = true -> np (from_string_slice rec_map t et d).
+  Proof.
+    intro W. unfold from_string_slice. destruct d; try np_leaf. destruct pj as [pj|]; [|np_leaf].
+    destruct t; try np_leaf. destruct et; try np_leaf;
+      (destruct pj; try np_leaf; apply np_bind; [apply np_mapM; intros; apply np_slice_value; assumption | intro; np_leaf]).
+  Qed.
+
   Lemma np_not_from_string t o d : wf_ty t = true -> np (not_from_string rec_struct rec_slice rec_map t o d).
   Proof.
     intro W. pose proof (wf_deref _ W) as W'. unfold not_from_string.
     destruct (vkind d) eqn:K; try (apply np_field_primitive; assumption).
     - destruct (deref t) eqn:E; try (apply np_field_primitive; assumption); try np_leaf.
-      destruct k; try (apply np_field_primitive; assumption). destruct d; try np_leaf. destruct (parse_dur s); np_leaf.
+      + destruct k; try (apply np_field_primitive; assumption). destruct d; try np_leaf. destruct (parse_dur s); np_leaf.
+      + apply np_from_string_slice. exact W'.
     - destruct (deref t) eqn:E; try (apply np_field_primitive; assumption).
       + apply np_fill_map; assumption.
       + destruct d; try np_leaf. apply np_bind; [apply Hs; assumption | intro; np_leaf].
@@ -128,25 +149,13 @@ Section NP.
   Lemma np_process_field f m : wf_field f = true -> np (process_field rec_struct rec_slice rec_map rec_field f m).
   Proof.
     intro W. unfold wf_field in W. apply andb_true_iff in W as [W A]. unfold process_field.
+    apply np_bind; [unfold resolve_opts; repeat (match goal with |- context [match ?x with _ => _ end] => destruct x end); np_leaf|]. intro o'.
     destruct (f_anon f) eqn:An.
     - destruct (olookup (f_key f) m); [np_leaf|]. unfold anon_ok in A. rewrite An in A.
       pose proof (wf_deref _ W) as W'. destruct (deref (f_ty f)) eqn:E; try discriminate.
-      destruct (o_optional (f_opts f)); [apply np_anon_optional; assumption|].
+      destruct (o_optional o'); [apply np_anon_optional; assumption|].
       apply np_bind; [|intro; np_leaf]. apply np_mapM. intros sf Hin. apply Hf. eapply wf_struct_fields; eauto.
     - destruct (olookup (f_key f) m); [apply np_with_value | apply np_without_value]; assumption.
-  Qed.
-
-  Lemma np_slice_value et x : wf_ty et = true -> np (slice_value rec_map et x).
-  Proof.
-    intro W. unfold slice_value.
-    repeat (match goal with
-            | |- np (Ok _) => apply np_ok
-            | |- np (Err _) => apply np_err
-            | |- np (bind _ _) => apply np_bind; [|intro]
-            | |- np (convert_set _ _ _) => apply np_convert_set
-            | |- np (rec_map _ _) => apply Hm; simpl in W; assumption
-            | |- np (match ?x with _ => _ end) => destruct x
-            end).
   Qed.
 
   Lemma np_slice_elem et x : wf_ty et = true -> np (slice_elem rec_struct rec_slice rec_map et x).
@@ -268,8 +277,8 @@ Qed.
 Lemma deref_prim t k : deref t = Prim k -> t = Prim k \/ t = Ptr (Prim k).
 Proof. destruct t; simpl; intro H; try discriminate; [left | right]; congruence. Qed.
 
-Lemma convert_set_exact k s fi v : convert_set k s fi = Ok v ->
-  leaf_agrees k (match fi with Some i => JNum s i | None => JStr s end) v = true.
+Lemma convert_set_exact pj k s fi v : convert_set k s fi = Ok v ->
+  leaf_agrees k (match fi with Some i => JNum s i | None => JStr s pj end) v = true.
 Proof.
   unfold convert_set. destruct k.
   - destruct (parse_bool s) eqn:E; [|discriminate]. intro H; inversion H; subst. simpl. destruct fi; rewrite E; apply eqb_reflx.
@@ -289,13 +298,16 @@ Qed.
 Definition is_int_ty (t : ty) : bool := match deref t with Prim (KInt _) | Prim (KUint _) | Prim KDur => true | _ => false end.
 
 Lemma in_options_value o d s : text_of d = Some s -> in_options o s = true -> value_in_options o d = true.
-Proof. unfold value_in_options. intros T H. destruct (o_options o); [reflexivity|]. rewrite T. exact H. Qed.
+Proof.
+  unfold value_in_options. intros T H. destruct (o_options o); [reflexivity|].
+  destruct d; simpl in *; try discriminate; rewrite ?T; inversion T; subst; exact H.
+Qed.
 
 Lemma range_tok_value o raw fi z : range_ok_tok o raw fi = true -> parse_signed raw = Some z ->
   value_in_range o (VInt z) = true /\ value_in_range o (VPtr (VInt z)) = true.
 Proof.
   unfold range_ok_tok, value_in_range. destruct (o_range o); [|split; reflexivity]. intros H E. rewrite E in H.
-  apply andb_true_iff in H as [_ H]. split; exact H.
+  apply andb_true_iff in H as [_ H]. split; simpl; exact H.
 Qed.
 
 Lemma json_number_exact t o raw fi w : json_number t o raw fi = Ok w ->
@@ -327,7 +339,7 @@ Qed.
 Lemma range_val_value o v t : range_ok_val o v = true -> value_in_range o (wrap_ptr t v) = true.
 Proof.
   unfold range_ok_val, value_in_range. destruct (o_range o); [|reflexivity]. intros H.
-  unfold wrap_ptr. destruct (is_ptr t); destruct v; try discriminate; exact H.
+  unfold wrap_ptr. destruct (is_ptr t); destruct v; try discriminate; simpl; exact H.
 Qed.
 
 Lemma agrees_wrap_prim t k d v : deref t = Prim k -> leaf_agrees k d v = true -> agrees t d (wrap_ptr t v) = true.
@@ -338,7 +350,7 @@ Lemma from_string_exact t o d w : from_string t o d = Ok w ->
 Proof.
   unfold from_string. destruct (deref t) as [k| | | |] eqn:D; try discriminate. destruct d; try discriminate.
   - destruct (in_options o raw) eqn:Op; [|discriminate]. destruct (range_ok_tok o raw fi) eqn:R; [|discriminate]. simpl negb. cbv iota.
-    intro H. apply bind_ok in H as [v [Hc H]]. inversion H; subst. pose proof (convert_set_exact _ _ _ _ Hc) as L. simpl in L.
+    intro H. apply bind_ok in H as [v [Hc H]]. inversion H; subst. pose proof (convert_set_exact None _ _ _ _ Hc) as L. simpl in L.
     split; [eapply agrees_wrap_prim; eauto|]. split; [eapply in_options_value; [reflexivity|exact Op]|].
     intro NF. unfold is_int_ty in NF. rewrite D in NF.
     unfold value_in_range. destruct (o_range o) eqn:Rg; [|reflexivity].
@@ -352,7 +364,7 @@ Proof.
       apply parse_int64_signed in E as [E _]. rewrite E in R. unfold wrap_ptr; destruct (is_ptr t); exact R.
   - destruct (in_options o s) eqn:Op; [|discriminate]. simpl negb. cbv iota.
     intro H. apply bind_ok in H as [v [Hc H]]. destruct (range_ok_val o v) eqn:R; [|discriminate]. inversion H; subst.
-    pose proof (convert_set_exact _ _ _ _ Hc) as L. simpl in L.
+    pose proof (convert_set_exact None _ _ _ _ Hc) as L. simpl in L.
     split; [eapply agrees_wrap_prim; eauto|]. split; [eapply in_options_value; [reflexivity|exact Op]|].
     intro NF. apply range_val_value; assumption.
 Qed.
@@ -418,7 +430,7 @@ Section Clauses.
     exists v0, w = wrap_ptr t v0 /\
       match deref t with
       | Prim KDur => exists z, parse_dur dv = Some z /\ v0 = VInt z
-      | Prim k => leaf_agrees k (JStr dv) v0 = true
+      | Prim k => leaf_agrees k (JStr dv None) v0 = true
       | _ => False
       end.
 
@@ -427,7 +439,7 @@ Section Clauses.
   Proof.
     intros Hd. unfold without_value, default_image. rewrite Hd. destruct (deref t) as [k| | | |]; try discriminate.
     destruct k; try (intro H; apply bind_ok in H as [v0 [Hc H]]; inversion H; subst; exists v0; split; [reflexivity|];
-                     exact (convert_set_exact _ _ None _ Hc)).
+                     exact (convert_set_exact None _ _ None _ Hc)).
     destruct (parse_dur dv) eqn:E; [|discriminate]. intro H; inversion H; subst. exists (VInt z). split; [reflexivity|]. exists z. auto.
   Qed.
 
@@ -464,48 +476,112 @@ Proof.
   - eapply IHForall2; eauto.
 Qed.
 
-(* the i-th named field of a successfully unmarshalled struct was produced by with_value / without_value *)
+(* ---- toOptionsWithContext: only the optional flag is resolved, every other option survives (4c6e8a8) *)
+Lemma resolve_nodep o k m : o_dep o = None -> resolve_opts o k m = Ok o.
+Proof. unfold resolve_opts. intros ->. destruct (o_optional o); reflexivity. Qed.
+
+Lemma resolve_keeps o k m o' : resolve_opts o k m = Ok o' ->
+  o_default o' = o_default o /\ o_options o' = o_options o /\ o_range o' = o_range o /\ o_string o' = o_string o /\ o_dep o' = o_dep o.
+Proof.
+  unfold resolve_opts. destruct (o_optional o); [|intro H; inversion H; subst; repeat split; try reflexivity; try assumption].
+  destruct (o_dep o) as [[[] dep]|] eqn:D; [| |intro H; inversion H; subst; repeat split; try reflexivity; try assumption].
+  - destruct (String.eqb dep ""); [discriminate|]. destruct (Bool.eqb _ _); [discriminate|]. intro H; inversion H; subst. simpl. repeat split; try reflexivity; try assumption.
+  - destruct (Bool.eqb _ _); [|discriminate]. intro H; inversion H; subst. simpl. repeat split; try reflexivity; try assumption.
+Qed.
+
+Lemma resolve_semantics o k m o' : resolve_opts o k m = Ok o' ->
+  match o_dep o with
+  | _ => True end /\
+  (o_optional o = false -> o' = o) /\
+  (o_optional o = true -> o_dep o = None -> o' = o) /\
+  (forall dep, o_optional o = true -> o_dep o = Some (false, dep) ->
+     has_key dep m = has_key k m /\ o_optional o' = negb (has_key dep m)) /\
+  (forall dep, o_optional o = true -> o_dep o = Some (true, dep) ->
+     has_key dep m = negb (has_key k m) /\ o_optional o' = has_key dep m).
+Proof.
+  unfold resolve_opts. intro H. split; [destruct (o_dep o); exact I|]. split; [intros E; rewrite E in H; inversion H; reflexivity|].
+  split; [intros E D; rewrite E, D in H; inversion H; reflexivity|]. split.
+  - intros dep E D. rewrite E, D in H. destruct (Bool.eqb (has_key dep m) (has_key k m)) eqn:B; [|discriminate].
+    apply eqb_prop in B. inversion H; subst. simpl. auto.
+  - intros dep E D. rewrite E, D in H. destruct (String.eqb dep ""); [discriminate|].
+    destruct (Bool.eqb (has_key dep m) (has_key k m)) eqn:B; [discriminate|]. inversion H; subst. simpl. split; [|reflexivity].
+    destruct (has_key dep m), (has_key k m); simpl in *; try reflexivity; discriminate.
+Qed.
+
+Lemma value_in_options_resolve o k m o' d : resolve_opts o k m = Ok o' -> value_in_options o' d = value_in_options o d.
+Proof.
+  intro H. destruct (resolve_keeps _ _ _ _ H) as [_ [E _]]. unfold value_in_options. rewrite E.
+  assert (G : forall x, doc_in_options o' x = doc_in_options o x).
+  { fix IH 1. intro x. destruct x; simpl; try reflexivity; try (unfold in_options; rewrite E; reflexivity).
+    - induction l as [|a r IHl]; simpl; [reflexivity|]. rewrite IH, IHl. reflexivity.
+    - induction m0 as [|[k0 a] r IHl]; simpl; [reflexivity|]. rewrite IH, IHl. reflexivity. }
+  destruct (o_options o); [reflexivity|]. apply G.
+Qed.
+
+Lemma value_in_range_resolve o k m o' v : resolve_opts o k m = Ok o' -> value_in_range o' v = value_in_range o v.
+Proof. intro H. destruct (resolve_keeps _ _ _ _ H) as [_ [_ [E _]]]. unfold value_in_range. rewrite E. reflexivity. Qed.
+
+(* the i-th named field of a successfully unmarshalled struct was produced by with_value / without_value, under the
+   options resolved by toOptionsWithContext *)
 Lemma named_field_result n fs m vs i f : unm_struct n fs m = Ok (VStruct vs) ->
   nth_error fs i = Some f -> f_anon f = false ->
-  exists n' w, nth_error vs i = Some w /\
+  exists n' w o', nth_error vs i = Some w /\ resolve_opts (f_opts f) (f_key f) m = Ok o' /\
     match olookup (f_key f) m with
-    | None => without_value (unm_struct n') (f_ty f) (f_opts f) = Ok w
-    | Some d => with_value (unm_struct n') (fill_slice n') (gen_map n') (f_ty f) (f_opts f) d = Ok w
+    | None => without_value (unm_struct n') (f_ty f) o' = Ok w
+    | Some d => with_value (unm_struct n') (fill_slice n') (gen_map n') (f_ty f) o' d = Ok w
     end.
 Proof.
   intros H Hi Ha. apply unm_struct_fields in H as [n1 [vs' [-> [E F]]]]. inversion E; subst vs'.
   destruct (Forall2_nth_ex _ _ _ F _ _ Hi) as [w [Hw Hf]].
-  destruct n1 as [|n2]; [discriminate|]. simpl in Hf. unfold process_field in Hf. rewrite Ha in Hf.
-  exists n2, w. split; [exact Hw|]. destruct (olookup (f_key f) m); exact Hf.
+  destruct n1 as [|n2]; [discriminate|]. simpl in Hf. unfold process_field in Hf. apply bind_ok in Hf as [o' [Ho Hf]]. rewrite Ha in Hf.
+  exists n2, w, o'. split; [exact Hw|]. split; [exact Ho|]. destruct (olookup (f_key f) m); exact Hf.
 Qed.
 
+(* an optional=dep / optional=!dep mismatch makes the struct fail *)
+Lemma struct_dep_mismatch n fs m i f e : nth_error fs i = Some f -> f_anon f = false ->
+  resolve_opts (f_opts f) (f_key f) m = Err e -> forall v, unm_struct n fs m <> Ok v.
+Proof.
+  intros Hi Ha Hr v H. destruct (unm_struct_fields _ _ _ _ H) as [n' [vs [-> [-> _]]]].
+  destruct (named_field_result _ _ _ _ _ _ H Hi Ha) as [n2 [w [o' [_ [Ho _]]]]]. congruence.
+Qed.
 
-Lemma struct_required n fs m i f : nth_error fs i = Some f -> f_anon f = false ->
-  olookup (f_key f) m = None -> o_default (f_opts f) = None -> o_optional (f_opts f) = false -> required_kind (f_ty f) ->
+(* "required" = the RESOLVED optional flag is off *)
+Lemma struct_required n fs m i f o' : nth_error fs i = Some f -> f_anon f = false ->
+  olookup (f_key f) m = None -> resolve_opts (f_opts f) (f_key f) m = Ok o' ->
+  o_default (f_opts f) = None -> o_optional o' = false -> required_kind (f_ty f) ->
   forall v, unm_struct n fs m <> Ok v.
 Proof.
-  intros Hi Ha Hk Hd Ho Hr v H. destruct (unm_struct_fields _ _ _ _ H) as [n' [vs [-> [-> _]]]].
-  destruct (named_field_result _ _ _ _ _ _ H Hi Ha) as [n2 [w [_ Hw]]]. rewrite Hk in Hw.
-  eapply without_value_required; eauto.
+  intros Hi Ha Hk Hr Hd Ho Hrk v H. destruct (unm_struct_fields _ _ _ _ H) as [n' [vs [-> [-> _]]]].
+  destruct (named_field_result _ _ _ _ _ _ H Hi Ha) as [n2 [w [o2 [_ [Ho2 Hw]]]]]. rewrite Hk in Hw.
+  assert (o2 = o') by congruence. subst. destruct (resolve_keeps _ _ _ _ Hr) as [Ed _].
+  eapply without_value_required; [rewrite Ed; exact Hd | exact Ho | exact Hrk | exact Hw].
 Qed.
 
 Lemma struct_default n fs m vs i f dv w : unm_struct n fs m = Ok (VStruct vs) ->
   nth_error fs i = Some f -> nth_error vs i = Some w -> f_anon f = false ->
   olookup (f_key f) m = None -> o_default (f_opts f) = Some dv -> default_image (f_ty f) dv w.
 Proof.
-  intros H Hi Hv Ha Hk Hd. destruct (named_field_result _ _ _ _ _ _ H Hi Ha) as [n2 [w' [Hw' Hw]]]. rewrite Hk in Hw.
-  assert (w' = w) by congruence. subst. eapply without_value_default; eauto.
+  intros H Hi Hv Ha Hk Hd. destruct (named_field_result _ _ _ _ _ _ H Hi Ha) as [n2 [w' [o' [Hw' [Ho Hw]]]]]. rewrite Hk in Hw.
+  assert (w' = w) by congruence. subst. destruct (resolve_keeps _ _ _ _ Ho) as [Ed _].
+  eapply without_value_default; [rewrite Ed; exact Hd | exact Hw].
 Qed.
 
-Lemma struct_optional_zero n fs m vs i f w : unm_struct n fs m = Ok (VStruct vs) ->
+Lemma struct_optional_zero n fs m vs i f w o' : unm_struct n fs m = Ok (VStruct vs) ->
   nth_error fs i = Some f -> nth_error vs i = Some w -> f_anon f = false ->
-  o_default (f_opts f) = None -> o_optional (f_opts f) = true ->
+  resolve_opts (f_opts f) (f_key f) m = Ok o' ->
+  o_default (f_opts f) = None -> o_optional o' = true ->
   olookup (f_key f) m = None \/ olookup (f_key f) m = Some JNull -> w = zero_val (f_ty f).
 Proof.
-  intros H Hi Hv Ha Hd Ho Hk. destruct (named_field_result _ _ _ _ _ _ H Hi Ha) as [n2 [w' [Hw' Hw]]].
-  assert (w' = w) by congruence. subst. destruct Hk as [Hk|Hk]; rewrite Hk in Hw.
-  - rewrite without_value_optional in Hw by assumption. congruence.
+  intros H Hi Hv Ha Hr Hd Ho Hk. destruct (named_field_result _ _ _ _ _ _ H Hi Ha) as [n2 [w' [o2 [Hw' [Ho2 Hw]]]]].
+  assert (w' = w) by congruence. assert (o2 = o') by congruence. subst. destruct (resolve_keeps _ _ _ _ Hr) as [Ed _].
+  destruct Hk as [Hk|Hk]; rewrite Hk in Hw.
+  - rewrite without_value_optional in Hw; [congruence | rewrite Ed; exact Hd | exact Ho].
   - apply with_value_null in Hw as [_ Hw]. exact Hw.
+Qed.
+
+Lemma dur_opts_ok_resolve t o k m o' : resolve_opts o k m = Ok o' -> dur_opts_ok t o -> dur_opts_ok t o'.
+Proof.
+  intros H DO D S. destruct (resolve_keeps _ _ _ _ H) as [_ [E1 [E2 [E3 _]]]]. rewrite E1, E2. apply DO; [exact D | rewrite <- E3; exact S].
 Qed.
 
 Lemma struct_scalar_present n fs m vs i f w d k : unm_struct n fs m = Ok (VStruct vs) ->
@@ -515,8 +591,11 @@ Lemma struct_scalar_present n fs m vs i f w d k : unm_struct n fs m = Ok (VStruc
   agrees (f_ty f) d w = true /\ value_in_options (f_opts f) d = true /\
   (is_int_ty (f_ty f) = true -> value_in_range (f_opts f) w = true).
 Proof.
-  intros H Hi Hv Ha D DO Hk Hn. destruct (named_field_result _ _ _ _ _ _ H Hi Ha) as [n2 [w' [Hw' Hw]]]. rewrite Hk in Hw.
-  assert (w' = w) by congruence. subst. eapply with_value_prim_exact; eauto.
+  intros H Hi Hv Ha D DO Hk Hn. destruct (named_field_result _ _ _ _ _ _ H Hi Ha) as [n2 [w' [o' [Hw' [Ho Hw]]]]]. rewrite Hk in Hw.
+  assert (w' = w) by congruence. subst.
+  destruct (with_value_prim_exact _ _ _ _ _ _ _ _ D (dur_opts_ok_resolve _ _ _ _ _ Ho DO) Hn Hw) as [A [O R]].
+  rewrite (value_in_options_resolve _ _ _ _ d Ho) in O. split; [exact A|]. split; [exact O|].
+  intro I. rewrite <- (value_in_range_resolve _ _ _ _ w Ho). apply R. exact I.
 Qed.
 
 (* ------------------------------------------------------------------ JSON == YAML on the common subset *)
@@ -534,7 +613,8 @@ Fixpoint same_content (y : yv) (j : jv) {struct y} : bool :=
   | YBool b, JBool b' => Bool.eqb b b'
   | YInt z, JNum raw fi => String.eqb raw (render_z z) && finfo_eqb fi int_fi
   | YFloat raw fi, JNum raw' fi' => String.eqb raw raw' && finfo_eqb fi fi'
-  | YStr s, JStr s' => String.eqb s s'
+  | YStr s pj, JStr s' pj' =>                            (* strings that are themselves JSON texts: not covered here *)
+      String.eqb s s' && match pj, pj' with None, None => true | _, _ => false end
   | YSeq l, JArr l' => all2 (fun a b => same_content a b) l l'
   | YMap m, JObj m' => all2 (fun p q => String.eqb (fst p) (fst q) && same_content (snd p) (snd q)) m m'
   | _, _ => false
@@ -546,7 +626,7 @@ Proof.
   - apply eqb_prop in H. subst. reflexivity.
   - apply andb_true_iff in H as [H1 H2]. apply String.eqb_eq in H1. apply finfo_eqb_eq in H2. subst. reflexivity.
   - apply andb_true_iff in H as [H1 H2]. apply String.eqb_eq in H1. apply finfo_eqb_eq in H2. subst. reflexivity.
-  - apply String.eqb_eq in H. subst. reflexivity.
+  - apply andb_true_iff in H as [H1 H2]. apply String.eqb_eq in H1. subst. destruct pj; [discriminate|]. destruct pj0; [discriminate|]. reflexivity.
   - f_equal. revert l0 H. induction l as [|a r IHl]; intros [|b r'] H; simpl in *; try discriminate; [reflexivity|].
     apply andb_true_iff in H as [H1 H2]. f_equal; [apply IH; exact H1 | apply IHl; exact H2].
   - f_equal. revert m0 H. induction m as [|[k a] r IHl]; intros [|[k' b] r'] H; simpl in *; try discriminate; [reflexivity|].
@@ -619,12 +699,14 @@ Proof.
 Qed.
 
 Lemma optional_succeeds n fs m :
-  (forall f, In f fs -> f_anon f = false /\ o_optional (f_opts f) = true /\ o_default (f_opts f) = None /\ olookup (f_key f) m = None) ->
+  (forall f, In f fs -> f_anon f = false /\ o_optional (f_opts f) = true /\ o_dep (f_opts f) = None /\
+                        o_default (f_opts f) = None /\ olookup (f_key f) m = None) ->
   unm_struct (S (S n)) fs m = Ok (VStruct (map (fun f => zero_val (f_ty f)) fs)).
 Proof.
   intro H. cbn [unm_struct].
   rewrite (mapM_all_ok (fun f => unm_field (S n) f m) (fun f => zero_val (f_ty f))); [reflexivity|].
-  intros f Hin. destruct (H f Hin) as [Ha [Ho [Hd Hk]]]. cbn [unm_field]. unfold process_field. rewrite Ha, Hk.
+  intros f Hin. destruct (H f Hin) as [Ha [Ho [Hdep [Hd Hk]]]]. cbn [unm_field]. unfold process_field.
+  rewrite (resolve_nodep _ _ _ Hdep). simpl. rewrite Ha, Hk.
   apply without_value_optional; assumption.
 Qed.
 
@@ -645,13 +727,38 @@ Definition opts_okb (t : ty) (o : fopts) : bool :=
 
 (* embedded: a struct; an optional one has only named members without default= (processAnonymousFieldOptional
    does not apply defaults of absent members) *)
+(* a declared default lies inside the declared options= / range= (the code never checks it) *)
+Definition default_okb (t : ty) (o : fopts) : bool :=
+  match o_default o with
+  | None => true
+  | Some dv =>
+      in_options o dv &&
+      match o_range o with
+      | None => true
+      | Some r =>
+          match deref t with
+          | Prim KDur => match parse_dur dv with Some z => in_range r z | None => true end
+          | _ => match parse_signed dv with Some z => in_range r z | None => true end
+          end
+      end
+  end.
+
+(* embedded: a struct; an optional one has only named members without default= and without optional=dep
+   (processAnonymousFieldOptional does not apply defaults of absent members) *)
 Definition field_okb (f : field) : bool :=
   if f_anon f then
     match deref (f_ty f) with
-    | Struct sub => if o_optional (f_opts f) then forallb (fun sf => negb (f_anon sf) && no_default (f_opts sf)) sub else true
+    | Struct sub =>
+        match o_dep (f_opts f) with
+        | None => if o_optional (f_opts f)
+                  then forallb (fun sf => negb (f_anon sf) && no_default (f_opts sf) &&
+                                          match o_dep (f_opts sf) with None => true | _ => false end) sub
+                  else true
+        | Some _ => false
+        end
     | _ => false
     end
-  else opts_okb (f_ty f) (f_opts f).
+  else opts_okb (f_ty f) (f_opts f) && default_okb (f_ty f) (f_opts f).
 
 Fixpoint wfx (t : ty) : bool :=
   match t with
@@ -716,6 +823,24 @@ Section Exact.
   Hypothesis Hm : forall et d v, wfx et = true -> rec_map et d = Ok v -> agrees (Map et) d v = true.
   Hypothesis Hf : forall f m w, wfx_field f = true -> rec_field f m = Ok w -> field_agrees f m w = true.
 
+  Lemma x_slice_value et x w : wfx et = true -> slice_value rec_map et x = Ok w -> agrees et x w = true.
+  Proof.
+    intros W H. unfold slice_value in H. destruct x; try discriminate.
+    - destruct et as [k|t1| | |]; try discriminate; [destruct k; try discriminate; inversion H; simpl; apply eqb_reflx|].
+      destruct t1 as [k| | | |]; try discriminate. destruct k; try discriminate. inversion H. simpl. apply eqb_reflx.
+    - destruct et as [k|t1| | |]; try discriminate; [exact (convert_set_exact None _ _ (Some fi) _ H)|].
+      destruct t1 as [k| | | |]; try discriminate. apply bind_ok in H as [v [Hc H]]. inversion H; subst. exact (convert_set_exact None _ _ (Some fi) _ Hc).
+    - destruct et as [k|t1| | |]; try discriminate; [exact (convert_set_exact pj _ _ None _ H)|].
+      destruct t1 as [k| | | |]; try discriminate. apply bind_ok in H as [v [Hc H]]. inversion H; subst. exact (convert_set_exact pj _ _ None _ Hc).
+    - destruct et; try discriminate. apply Hm; assumption.
+  Qed.
+
+  Lemma slice_value_nonnull et l vs : mapM (slice_value rec_map et) l = Ok vs -> forallb is_null l = true -> l = [].
+  Proof.
+    destruct l as [|x r]; [reflexivity|]. simpl. intros H N. apply andb_true_iff in N as [N _].
+    destruct x; discriminate.
+  Qed.
+
   Lemma x_with_value t o d w : wfx t = true -> opts_okb t o = true -> d <> JNull ->
     with_value rec_struct rec_slice rec_map t o d = Ok w ->
     agrees t d w && value_in_options o d && value_in_range o w = true.
@@ -739,7 +864,24 @@ Section Exact.
       unfold with_value, not_from_string, field_primitive in H. rewrite D in H.
       destruct d; try congruence; simpl in H; try discriminate.
       try (exfalso; eapply json_number_nonprim; [|exact H]; intros k0 E0; rewrite D in E0; discriminate).
-      apply Hl in H as [[e ->] A]; [|exact W']. simpl in D. inversion D; subst. exact A.
+      + (* fillSliceFromString *)
+        unfold from_string_slice in H. destruct pj as [pj|]; [|discriminate].
+        destruct t as [| | t0 | |]; try discriminate. simpl in D. inversion D; subst t0.
+        assert (G : match pj with
+                    | JArr l => bind (mapM (slice_value rec_map et) l) (fun vs => Ok (VSlice vs))
+                    | JNull => Ok (VSlice [])
+                    | _ => Err E_parse end = Ok w) by (destruct et; try discriminate; exact H).
+        clear H. destruct pj; try discriminate.
+        * inversion G. reflexivity.
+        * apply bind_ok in G as [vs [Hvs G]]. inversion G; subst. cbn [agrees agrees_t].
+          destruct l as [|x l]; [inversion Hvs; reflexivity|].
+          pose proof Hvs as Hvs'. apply mapM_ok in Hvs.
+          destruct (forallb is_null (x :: l)) eqn:N; [apply (slice_value_nonnull _ _ _ Hvs') in N; discriminate|].
+          assert (A : all2 (fun x w => if is_null x then val_eqb w (zero_val et) else agrees et x w) (x :: l) vs = true).
+          { apply all2_Forall2. eapply Forall2_impl; [|exact Hvs]. intros a b Hab. simpl in Hab.
+            destruct (is_null a) eqn:Na; [destruct a; discriminate | apply x_slice_value; assumption]. }
+          inversion Hvs; subst. simpl negb. rewrite andb_true_l. exact A.
+      + apply Hl in H as [[e ->] A]; [|exact W']. simpl in D. inversion D; subst. exact A.
     - apply andb_true_iff in OK as [O1 O2]. unfold no_options in O1. unfold no_range in O2.
       assert (VO : value_in_options o d = true) by (unfold value_in_options; destruct (o_options o); [reflexivity|discriminate]).
       assert (VR : value_in_range o w = true) by (unfold value_in_range; destruct (o_range o); [discriminate|reflexivity]).
@@ -759,14 +901,15 @@ Section Exact.
   Qed.
 
   (* the `None` branch of field_agrees *)
-  Lemma x_without_value t o w : wfx t = true -> without_value rec_struct t o = Ok w ->
+  Lemma x_without_value t o w : wfx t = true -> opts_okb t o = true -> default_okb t o = true ->
+    without_value rec_struct t o = Ok w ->
     match o_default o with
     | Some dv =>
         match deref t, unwrap t w with
         | Prim KDur, Some (VInt z) => match parse_dur dv with Some z' => z =? z' | None => false end
-        | Prim k, Some w' => leaf_agrees k (JStr dv) w'
+        | Prim k, Some w' => leaf_agrees k (JStr dv None) w'
         | _, _ => false
-        end
+        end && (tol_eqb TNone TDefault || (in_options o dv && value_in_range o w))
     | None =>
         if o_optional o then val_eqb w (zero_val t)
         else match deref t, unwrap t w with
@@ -775,11 +918,29 @@ Section Exact.
              end
     end = true.
   Proof.
-    intros W H. pose proof (wfx_deref _ W) as W'. unfold without_value in H. destruct (o_default o) as [dv|].
-    - destruct (deref t) as [k| | | |] eqn:D; try discriminate.
-      destruct k; try (apply bind_ok in H as [v0 [Hc H]]; inversion H; subst; rewrite unwrap_wrap;
-                       exact (convert_set_exact _ _ None _ Hc)).
-      destruct (parse_dur dv) eqn:E; [|discriminate]. inversion H; subst. rewrite unwrap_wrap. apply Z.eqb_refl.
+    intros W OK DK H. pose proof (wfx_deref _ W) as W'. unfold without_value in H. unfold default_okb in DK. unfold opts_okb in OK.
+    destruct (o_default o) as [dv|].
+    - apply andb_true_iff in DK as [DO DR]. change (tol_eqb TNone TDefault) with false. rewrite DO, orb_false_l, andb_true_l.
+      destruct (deref t) as [k| | | |] eqn:D; try discriminate.
+      assert (NR : no_range o = true -> forall v, value_in_range o v = true).
+      { unfold no_range, value_in_range. destruct (o_range o); [discriminate|reflexivity]. }
+      assert (RG : forall z, match o_range o with Some r => in_range r z = true | None => True end ->
+                   value_in_range o (wrap_ptr t (VInt z)) = true).
+      { intros z Hz. unfold value_in_range. destruct (o_range o) as [r|]; [|reflexivity].
+        unfold wrap_ptr. destruct (is_ptr t); simpl; exact Hz. }
+      destruct k.
+      + apply bind_ok in H as [v0 [Hc H]]. inversion H; subst. rewrite unwrap_wrap, (convert_set_exact None _ _ None _ Hc), NR by exact OK. reflexivity.
+      + apply bind_ok in H as [v0 [Hc H]]. inversion H; subst. rewrite unwrap_wrap, (convert_set_exact None _ _ None _ Hc). simpl.
+        unfold convert_set in Hc. destruct (parse_int64 dv) eqn:E; [|discriminate]. destruct (fits_int w0 z); inversion Hc; subst.
+        apply parse_int64_signed in E as [E _]. apply RG. destruct (o_range o); [|exact I]. rewrite E in DR. exact DR.
+      + apply bind_ok in H as [v0 [Hc H]]. inversion H; subst. rewrite unwrap_wrap, (convert_set_exact None _ _ None _ Hc). simpl.
+        unfold convert_set in Hc. destruct (parse_uint64 dv) eqn:E; [|discriminate]. destruct (fits_uint w0 z); inversion Hc; subst.
+        apply parse_uint64_signed in E. apply RG. destruct (o_range o); [|exact I]. rewrite E in DR. exact DR.
+      + apply bind_ok in H as [v0 [Hc H]]. discriminate.
+      + apply bind_ok in H as [v0 [Hc H]]. discriminate.
+      + apply bind_ok in H as [v0 [Hc H]]. inversion H; subst. rewrite unwrap_wrap, (convert_set_exact None _ _ None _ Hc), NR by exact OK. reflexivity.
+      + destruct (parse_dur dv) eqn:E; [|discriminate]. inversion H; subst. rewrite unwrap_wrap, Z.eqb_refl. simpl.
+        apply RG. destruct (o_range o); [|exact I]. simpl in DR. exact DR.
     - destruct (o_optional o); [inversion H; apply val_eqb_refl|].
       destruct (deref t) as [k| | | |fs] eqn:D; try discriminate.
       destruct (ty_required (Struct fs)) eqn:R; [discriminate|]. apply bind_ok in H as [v [Hv H]]. inversion H; subst.
@@ -787,7 +948,7 @@ Section Exact.
   Qed.
 
   Lemma x_anon_members sub m : forall rs,
-    (forall sf, In sf sub -> wfx_field sf = true /\ f_anon sf = false /\ o_default (f_opts sf) = None /\
+    (forall sf, In sf sub -> wfx_field sf = true /\ f_anon sf = false /\ o_default (f_opts sf) = None /\ o_dep (f_opts sf) = None /\
                              (o_optional (f_opts sf) = false -> olookup (f_key sf) m <> None)) ->
     mapM (fun sf => match olookup (f_key sf) m with
                     | Some _ => bind (rec_field sf m) (fun v => Ok (v, true))
@@ -799,58 +960,61 @@ Section Exact.
     - inversion H. reflexivity.
     - apply bind_ok in H as [b [Hb H]]. apply bind_ok in H as [bs [Hbs H]]. inversion H; subst. simpl.
       rewrite (IH bs) by (auto; intros; apply P; auto). rewrite andb_true_r.
-      destruct (P sf (or_introl eq_refl)) as [Wf [An [Df Req]]].
+      destruct (P sf (or_introl eq_refl)) as [Wf [An [Df [Dp Req]]]].
       destruct (olookup (f_key sf) m) eqn:K.
       + apply bind_ok in Hb as [v [Hv Hb]]. inversion Hb; subst. simpl. apply Hf; assumption.
-      + inversion Hb; subst. simpl. unfold field_agrees. rewrite An, K, Df.
+      + inversion Hb; subst. simpl. unfold field_agrees, field_agrees_t. rewrite (resolve_nodep _ _ _ Dp), An, K, Df.
         destruct (o_optional (f_opts sf)); [apply val_eqb_refl|]. exfalso. apply Req; reflexivity.
+  Qed.
+
+  Lemma opts_okb_resolve t o k m o' : resolve_opts o k m = Ok o' -> opts_okb t o' = opts_okb t o.
+  Proof.
+    intro H. destruct (resolve_keeps _ _ _ _ H) as [_ [E1 [E2 [E3 _]]]]. unfold opts_okb, no_options, no_range. rewrite E1, E2, E3. reflexivity.
+  Qed.
+  Lemma default_okb_resolve t o k m o' : resolve_opts o k m = Ok o' -> default_okb t o' = default_okb t o.
+  Proof.
+    intro H. destruct (resolve_keeps _ _ _ _ H) as [E0 [E1 [E2 _]]]. unfold default_okb, in_options. rewrite E0, E1, E2. reflexivity.
   Qed.
 
   Lemma x_process_field f m w : wfx_field f = true ->
     process_field rec_struct rec_slice rec_map rec_field f m = Ok w -> field_agrees f m w = true.
   Proof.
     intros Wf H. unfold wfx_field in Wf. apply andb_true_iff in Wf as [W OK]. unfold field_okb in OK.
-    unfold process_field in H. unfold field_agrees. destruct (f_anon f) eqn:An.
+    unfold process_field in H. apply bind_ok in H as [o [Ho H]]. unfold field_agrees, field_agrees_t. rewrite Ho.
+    destruct (f_anon f) eqn:An.
     - unfold has_key. destruct (olookup (f_key f) m); [discriminate|]. simpl negb. rewrite andb_true_l.
       pose proof (wfx_deref _ W) as W'. destruct (deref (f_ty f)) as [| | | |sub] eqn:D; try discriminate.
+      destruct (o_dep (f_opts f)) eqn:Dp; [discriminate|]. rewrite (resolve_nodep _ _ _ Dp) in Ho. inversion Ho; subst o.
       destruct (o_optional (f_opts f)) eqn:Op.
       + (* processAnonymousFieldOptional *)
         unfold anon_optional in H. apply bind_ok in H as [rs [Hrs H]].
         destruct (existsb snd rs).
         * destruct (Nat.eqb _ _) eqn:Cnt in H; [|discriminate]. inversion H; subst. apply Nat.eqb_eq in Cnt.
-          apply orb_true_iff. right. rewrite unwrap_wrap. rewrite agrees_struct.
+          apply orb_true_iff. right. rewrite unwrap_wrap. fold agrees. rewrite agrees_struct.
           apply (x_anon_members sub m rs); [|exact Hrs]. intros sf Hin.
-          rewrite forallb_forall in OK. specialize (OK sf Hin). apply andb_true_iff in OK as [O1 O2].
+          rewrite forallb_forall in OK. specialize (OK sf Hin). apply andb_true_iff in OK as [O12 O3]. apply andb_true_iff in O12 as [O1 O2].
           split; [eapply wfx_struct_fields; eauto|]. split; [destruct (f_anon sf); [discriminate|reflexivity]|].
           split; [unfold no_default in O2; destruct (o_default (f_opts sf)); [discriminate|reflexivity]|].
-          intros Ho K.
+          split; [destruct (o_dep (f_opts sf)); [discriminate|reflexivity]|].
+          intros Ho' K.
           pose proof (filter_len_eq (fun sf => negb (o_optional (f_opts sf)))
                         (fun sf => match olookup (f_key sf) m with Some _ => true | None => false end) sub Cnt sf Hin) as Q.
-          cbv beta in Q. rewrite Ho, K in Q. specialize (Q eq_refl). discriminate.
+          cbv beta in Q. rewrite Ho', K in Q. specialize (Q eq_refl). discriminate.
         * inversion H; subst. rewrite val_eqb_refl. reflexivity.
-      + apply bind_ok in H as [vs [Hvs H]]. inversion H; subst. apply orb_true_iff. right. rewrite unwrap_wrap, agrees_struct.
+      + apply bind_ok in H as [vs [Hvs H]]. inversion H; subst. apply orb_true_iff. right. rewrite unwrap_wrap. fold agrees. rewrite agrees_struct.
         apply all2_Forall2. apply mapM_ok in Hvs.
         assert (G : forall l vs0, (forall sf, In sf l -> In sf sub) -> Forall2 (fun a b => rec_field a m = Ok b) l vs0 ->
                                   Forall2 (fun a b => field_agrees a m b = true) l vs0).
         { induction 2; constructor; [apply Hf; [eapply wfx_struct_fields; [exact W'|]; apply H0; left; reflexivity | assumption]|].
           apply IHForall2. intros; apply H0; right; assumption. }
         apply G; auto.
-    - destruct (olookup (f_key f) m) as [d|] eqn:K.
-      + destruct d; try (apply x_with_value; [assumption | assumption | discriminate | exact H]).
-        unfold with_value in H. destruct (o_optional (f_opts f)); [|discriminate]. inversion H. apply val_eqb_refl.
-      + exact (x_without_value _ _ _ W H).
-  Qed.
-
-  Lemma x_slice_value et x w : wfx et = true -> slice_value rec_map et x = Ok w -> agrees et x w = true.
-  Proof.
-    intros W H. unfold slice_value in H. destruct x; try discriminate.
-    - destruct et as [k|t1| | |]; try discriminate; [destruct k; try discriminate; inversion H; simpl; apply eqb_reflx|].
-      destruct t1 as [k| | | |]; try discriminate. destruct k; try discriminate. inversion H. simpl. apply eqb_reflx.
-    - destruct et as [k|t1| | |]; try discriminate; [exact (convert_set_exact _ _ (Some fi) _ H)|].
-      destruct t1 as [k| | | |]; try discriminate. apply bind_ok in H as [v [Hc H]]. inversion H; subst. exact (convert_set_exact _ _ (Some fi) _ Hc).
-    - destruct et as [k|t1| | |]; try discriminate; [exact (convert_set_exact _ _ None _ H)|].
-      destruct t1 as [k| | | |]; try discriminate. apply bind_ok in H as [v [Hc H]]. inversion H; subst. exact (convert_set_exact _ _ None _ Hc).
-    - destruct et; try discriminate. apply Hm; assumption.
+    - apply andb_true_iff in OK as [OK DK].
+      rewrite <- (opts_okb_resolve _ _ _ _ _ Ho) in OK. rewrite <- (default_okb_resolve _ _ _ _ _ Ho) in DK.
+      destruct (olookup (f_key f) m) as [d|] eqn:K.
+      + destruct d; try (change (tol_eqb TNone TNone) with true; simpl negb; rewrite andb_false_l, orb_false_l, andb_assoc;
+                         apply x_with_value; [assumption | assumption | discriminate | exact H]).
+        unfold with_value in H. destruct (o_optional o); [|discriminate]. inversion H. apply val_eqb_refl.
+      + fold agrees. exact (x_without_value _ _ _ W OK DK H).
   Qed.
 
   Lemma x_slice_elem et x w : wfx et = true -> slice_elem rec_struct rec_slice rec_map et x = Ok w -> agrees et x w = true.
@@ -873,7 +1037,7 @@ Section Exact.
     - assert (A : all2 (fun x w => if is_null x then val_eqb w (zero_val et) else agrees et x w) (x :: l) vs = true).
       { apply all2_Forall2. eapply Forall2_impl; [|exact Hvs]. intros a b Hab. simpl in Hab.
         destruct (is_null a); [inversion Hab; apply val_eqb_refl | apply x_slice_elem; assumption]. }
-      inversion Hvs; subst. cbn [agrees]. rewrite N. simpl negb. rewrite andb_true_l. exact A.
+      inversion Hvs; subst. unfold agrees; cbn [agrees_t]; fold agrees. rewrite N. simpl negb. rewrite andb_true_l. exact A.
   Qed.
 
   Lemma x_map_elem et x w : wfx et = true -> map_elem rec_struct rec_slice rec_map et x = Ok w -> agrees et x w = true.
@@ -884,7 +1048,7 @@ Section Exact.
     - assert (E : et = Prim k). { destruct et; simpl in D, P; try discriminate; try congruence; try (subst; simpl in P; discriminate). }
       subst et. destruct x; try discriminate.
       + destruct k; try discriminate. inversion H. simpl. apply eqb_reflx.
-      + exact (convert_set_exact _ _ (Some fi) _ H).
+      + exact (convert_set_exact None _ _ (Some fi) _ H).
       + destruct k; try discriminate. inversion H. simpl. apply String.eqb_refl.
     - assert (E : et = Slice et2). { destruct et; simpl in D, P; try discriminate; try congruence; try (subst; simpl in P; discriminate). }
       subst et. apply Hl in H as [_ A]; assumption.
@@ -896,7 +1060,7 @@ Section Exact.
   Lemma x_gen_map_body et d v : wfx et = true -> gen_map_body rec_struct rec_slice rec_map et d = Ok v -> agrees (Map et) d v = true.
   Proof.
     intros W H. unfold gen_map_body in H. destruct d; try discriminate. apply bind_ok in H as [l [Hl' H]]. inversion H; subst.
-    cbn [agrees]. apply all2_Forall2. apply mapM_ok in Hl'. eapply Forall2_impl; [|exact Hl']. intros [k x] [k' w] Hab. simpl in *.
+    unfold agrees; cbn [agrees_t]; fold agrees. apply all2_Forall2. apply mapM_ok in Hl'. eapply Forall2_impl; [|exact Hl']. intros [k x] [k' w] Hab. simpl in *.
     apply bind_ok in Hab as [w0 [Hw Hab]]. inversion Hab; subst. rewrite String.eqb_refl. apply x_map_elem; assumption.
   Qed.
 End Exact.
